@@ -18,6 +18,7 @@ static std::vector<std::string> lines(const std::string& s) { std::vector<std::s
 static bool abi_phase(CheckState& st) {
     auto rows_json = Json::arr(); uint64_t nrows = 0, nconst = 0;
     for (auto rp : st.reps->all) {
+        if (!rp->handle) continue;   // interpreted pseudo-replicas have no build of their own
         const jv_abi_row* rows; size_t n = rp->jv_abi_table(&rows);
         for (size_t i = 0; i < n; i++) {
             const jv_abi_row& r = rows[i]; nrows++;
